@@ -143,5 +143,15 @@ fn verif_grid() {
             }
         });
     }
+    // a line that matches none of the table's patterns: every column gets its DEFAULT or NULL (and the line is a row if a DEFAULT is there)
+    {
+        let def = "CREATE TABLE t(line = '^u=(\\\\w+) n=([0-9]+)$', other = 'zzz=(\\\\d+)', line[1] => u TEXT DEFAULT 'nobody', line[2] => n INT, other[1] => z INT DEFAULT 7, line[2] => m INT DEFAULT 0);";
+        for (i, (line, want)) in [("u=ann n=5", r#"{"u":"ann","n":5,"z":7,"m":5}"#), ("nothing matches", r#"{"u":"nobody","n":null,"z":7,"m":0}"#), ("", r#"{"u":"nobody","n":null,"z":7,"m":0}"#),
+                                  ("zzz=3", r#"{"u":"nobody","n":null,"z":3,"m":0}"#), ("u=bob n=", r#"{"u":"nobody","n":null,"z":7,"m":0}"#)].iter().enumerate() {
+            g.case(&format!("unmatched-line-defaults-{}", i), move || match q(def, "SELECT * FROM t", &[line]) {
+                Outcome::Lines(l, _) => if l == vec![want.to_string()] { Ok(()) } else { Err(format!("{} on the line {:?} printed {:?}, expected {}", def, line, l, want)) },
+                other => Err(format!("{:?}", other)) });
+        }
+    }
     g.done();
 }
